@@ -17,6 +17,9 @@ def satMul (a b : Nat) : Nat := Nat.min (a * b) usizeMax
 
 abbrev Str := List Nat
 
+/-- `char::is_ascii_digit` -/
+def isDigit (c : Nat) : Bool := decide (48 ≤ c) && decide (c ≤ 57)
+
 /-! panic sites (numbers so that states stay kernel-reducible) -/
 def panicBackrefIndex : Nat := 1      -- op_back_reference.rs: start_backref[group]
 def panicBackrefUnderflow : Nat := 2  -- op_back_reference.rs: e - s
